@@ -2,6 +2,7 @@ import XV.Props.C02
 import XV.Lemmas.UndoKeys
 import XV.Lemmas.UndoObs
 import XV.Lemmas.UndoFee
+import XV.Lemmas.UndoBlock
 /-!
 C01 — the state at a block is a pure function of its chain: undoing exactly cancels playing.
 Transaction level: `undoTx (applyTx s t) t` restores every row of the UTXO table and the total
@@ -455,5 +456,186 @@ example :
     (∀ i ∈ [0, 1, 2], ∀ o, t.outs[i]? = some o → (o.addr == "$") = true → lookup s.U (t.id, 0 + i) = none) ∧
     lookup (payFee t "miner" t.outs 0 s).U (1, 2) = some ⟨"miner", 2, 0⟩ ∧
     (undoPayFee t t.outs 0 (payFee t "miner" t.outs 0 s)).U = s.U := by decide
+
+-- ================================================================== one block step and its undo
+
+/-- **apply + fee, then undo + fee-undo, gives back the state** — as a refinement (`Refines`, Lemmas/UndoObs.lean:
+observationally equal, same live key table row by row, no recycle row that was not there), for an admitted
+transaction on a well-formed state -/
+theorem undo_fee_apply_refines (e : Env) (r : St) (lh : Int) (t : Tx) (prop : String)
+    (hadm : admitTx r lh t = .ok) (hinv : KVInv e r) (hnd : koutDistinct t)
+    (hfresh : ∀ o, lookup r.U (t.id, o) = none) (hself : ∀ x ∈ t.ins, x.tx ≠ t.id) (hfz : citesFrozen r t) :
+    Refines (undoPayFee t t.outs 0 (undoTx e (payFee t prop t.outs 0 (applyTx r t)) t)) r := by
+  obtain ⟨_, _, hread, hwr⟩ := XV.C03.admit_sound r lh t hadm
+  obtain ⟨f1, f2, f3, f4, f5, f6⟩ := payFee_frame t prop t.outs 0 (applyTx r t)
+  obtain ⟨g1, g2, g3, g4, g5, g6⟩ := undoPayFee_frame t t.outs 0 (undoTx e (payFee t prop t.outs 0 (applyTx r t)) t)
+  obtain ⟨k1, k2⟩ := undoTx_tables e t (payFee t prop t.outs 0 (applyTx r t)) (applyTx r t) f1 f2
+  obtain ⟨u1, u2, u3⟩ := undoTx_frame e (payFee t prop t.outs 0 (applyTx r t)) t
+  obtain ⟨a1, a2, a3⟩ := applyTx_frame r t
+  refine ⟨⟨fun k => ?_, fun key => ?_, ?_, ?_, ?_, ?_⟩, fun k => ?_, fun k m => ?_⟩
+  · by_cases hk : isFeeKey t t.outs 0 k
+    · rw [undoPayFee_fee t t.outs 0 _ k hk]
+      obtain ⟨i, o, _, _, h3⟩ := hk
+      rw [h3]; exact (hfresh _).symm
+    · rw [undoPayFee_nofee t t.outs 0 _ k hk,
+        undoTx_U_congr e _ (applyTx r t) t k (payFee_nofee t prop t.outs 0 (applyTx r t) k hk)]
+      exact undo_apply_U e r lh t hadm hfresh hself hfz k
+  · rw [undoPayFee_curVer]
+    exact (curVer_congr_tables _ _ _ (by rw [k1]) (by rw [k2])).trans (undo_apply_curVer e r t hread hwr hnd key)
+  · exact g3.trans ((undoTx_total_congr e _ (applyTx r t) t f3).trans (undo_apply_total e r t))
+  · exact g4.trans (u1.trans (f4.trans a1))
+  · exact g5.trans (u2.trans (f5.trans a2))
+  · exact g6.trans (u3.trans (f6.trans a3))
+  · rw [g1, k1]; exact (undo_apply_tables e r t hinv hread hwr hnd k).1
+  · rw [g2, k2]; exact (undo_apply_tables e r t hinv hread hwr hnd k).2 m
+
+/-- the same undo step started from any state that refines (tables only) the state after the forward step -/
+theorem undo_step_trefines (e : Env) (r : St) (lh : Int) (t : Tx) (prop : String) (x : St)
+    (hadm : admitTx r lh t = .ok) (hinv : KVInv e r) (hnd : koutDistinct t)
+    (hfresh : ∀ o, lookup r.U (t.id, o) = none) (hself : ∀ y ∈ t.ins, y.tx ≠ t.id) (hfz : citesFrozen r t)
+    (hx : TRefines x (payFee t prop t.outs 0 (applyTx r t))) :
+    TRefines (undoPayFee t t.outs 0 (undoTx e x t)) r := by
+  obtain ⟨_, _, hread, hwr⟩ := XV.C03.admit_sound r lh t hadm
+  obtain ⟨_, f2, _⟩ := payFee_frame t prop t.outs 0 (applyTx r t)
+  have hsafe : UndoSafe (payFee t prop t.outs 0 (applyTx r t)) t :=
+    undoSafe_of_ZD (applyTx r t) _ t f2 (undoSafe_applyTx r t hread hwr hnd)
+  exact (undoPayFee_trefines t t.outs 0 _ _ (undoTx_trefines e x _ t hnd hsafe hx)).trans
+    (undo_fee_apply_refines e r lh t prop hadm hinv hnd hfresh hself hfz).toT
+
+-- ================================================================== a whole block
+
+/-- static side conditions on a transaction id of a block: the environment knows the transaction under this id
+(ids are hashes), no input cites the transaction itself, one write per key -/
+structure TxWF (e : Env) (i : Nat) : Prop where
+  id : (e.tx i).id = i
+  self : ∀ r ∈ (e.tx i).ins, r.tx ≠ i
+  kout : koutDistinct (e.tx i)
+
+/-- `citesFrozen` for every transaction of the block at its point of application (the state after the
+transactions before it, fees paid) -/
+def FrozenAlong (e : Env) (prop : String) : List Nat → St → Prop
+  | [], _ => True
+  | i :: rest, s => citesFrozen s (e.tx i) ∧ FrozenAlong e prop rest (blockStep e prop i s)
+
+/-- the transaction loops of `todoBlock` and `undoBlock` cancel: undoing the transactions of a successfully applied
+list, newest first, from any state that refines the result, refines the start state -/
+theorem undoTxs_applyBlockTxs (e : Env) (lh : Int) (prop : String) (l : List Nat) (s s2 : St)
+    (hfwd : applyBlockTxs e lh prop [] l s = some (s2, .ok))
+    (hwf : ∀ i ∈ l, TxWF e i) (hnd : l.Nodup) (hfresh : ∀ i ∈ l, ∀ o, lookup s.U (i, o) = none)
+    (hfz : FrozenAlong e prop l s) (hinv : KVInv e s) :
+    ∀ x, TRefines x s2 → TRefines (undoTxs e l x) s := by
+  induction l generalizing s with
+  | nil =>
+    intro x hx
+    rw [applyBlockTxs_nil_ok e lh prop s s2 hfwd] at hx
+    exact hx
+  | cons i rest ih =>
+    intro x hx
+    obtain ⟨hadm, hrest⟩ := applyBlockTxs_cons_ok e lh prop i rest s s2 hfwd
+    have wi := hwf i List.mem_cons_self
+    have hid : e.tx (e.tx i).id = e.tx i := by rw [wi.id]
+    simp only [List.nodup_cons] at hnd
+    have hstep : TRefines (undoTxs e rest x) (blockStep e prop i s) := by
+      apply ih (blockStep e prop i s) hrest (fun j hj => hwf j (List.mem_cons_of_mem _ hj)) hnd.2
+      · intro j hj o
+        apply blockStep_absent
+        · rw [wi.id]; intro h; exact hnd.1 (h ▸ hj)
+        · exact hfresh j (List.mem_cons_of_mem _ hj) o
+      · exact hfz.2
+      · exact blockStep_KVInv e prop i s hid hinv
+      · exact hx
+    rw [undoTxs_cons]
+    exact undo_step_trefines e s lh (e.tx i) prop _ hadm hinv wi.kout
+      (fun o => by rw [wi.id]; exact hfresh i List.mem_cons_self o)
+      (fun y hy => by rw [wi.id]; exact wi.self y hy) hfz.1 hstep
+
+/-- **undoing a block exactly cancels applying it.** If `todoBlock` applies `b` on `s` (all transactions admitted in
+order) and: the environment knows every transaction of the block under its id, inputs never cite their own
+transaction, one write per key (`TxWF`); the transaction ids of the block are distinct; none of their output rows
+exists in `s`; every input cites the frozen height of the row it spends, at its point of application
+(`FrozenAlong`); `s` is well-formed (`KVInv`) — then the non-pruning `undoBlock` of the result refines
+(in particular: is observationally equal to) `s` with the pointer at the parent `b.pre.getD 0` and the
+irreversible height where `todoBlock` put it: a non-pruning undo does NOT restore `irrev`. -/
+theorem undoBlock_todoBlock (e : Env) (s s' : St) (lh : Int) (b : Block) (h : todoBlock e s lh b = some s')
+    (hwf : ∀ i ∈ b.txs, TxWF e i) (hnd : b.txs.Nodup) (hfresh : ∀ i ∈ b.txs, ∀ o, lookup s.U (i, o) = none)
+    (hfz : FrozenAlong e b.prop b.txs s) (hinv : KVInv e s) :
+    Refines (undoBlock e s' b false)
+      { s with pointer := b.pre.getD 0, irrev := nextIrrev e.window s.irrev b.height } := by
+  unfold todoBlock at h
+  split at h
+  · cases h
+  · split at h
+    · rename_i s2 hfwd
+      simp only [Option.some.injEq] at h
+      subst h
+      have hx : TRefines { s2 with pointer := b.id, irrev := nextIrrev e.window s.irrev b.height } s2 :=
+        ⟨⟨fun _ => rfl, fun _ => rfl, rfl, rfl⟩, fun _ => rfl, fun _ _ hm => hm⟩
+      have hT := undoTxs_applyBlockTxs e lh b.prop b.txs s s2 hfwd hwf hnd hfresh hfz hinv _ hx
+      rw [undoBlock_eq]
+      exact ⟨⟨hT.obs.U, hT.obs.ver, hT.obs.total, rfl, rfl, hT.obs.pool⟩, hT.ZU, hT.ZD⟩
+    · cases h
+
+/-- the observational form: same rows, key versions, total and pool as before the block; pointer at the parent -/
+theorem undoBlock_todoBlock_obs (e : Env) (s s' : St) (lh : Int) (b : Block) (h : todoBlock e s lh b = some s')
+    (hwf : ∀ i ∈ b.txs, TxWF e i) (hnd : b.txs.Nodup) (hfresh : ∀ i ∈ b.txs, ∀ o, lookup s.U (i, o) = none)
+    (hfz : FrozenAlong e b.prop b.txs s) (hinv : KVInv e s) :
+    undoBlock e s' b false ≈ { s with pointer := b.pre.getD 0, irrev := nextIrrev e.window s.irrev b.height } :=
+  (undoBlock_todoBlock e s s' lh b h hwf hnd hfresh hfz hinv).obs
+
+/-- when the block extends the current tip (`b.pre = some s.pointer`, as for every block a walk applies) the state is
+back up to the irreversible height, and the result is again well-formed -/
+theorem undoBlock_todoBlock_tip (e : Env) (s s' : St) (lh : Int) (b : Block) (h : todoBlock e s lh b = some s')
+    (hpre : b.pre = some s.pointer)
+    (hwf : ∀ i ∈ b.txs, TxWF e i) (hnd : b.txs.Nodup) (hfresh : ∀ i ∈ b.txs, ∀ o, lookup s.U (i, o) = none)
+    (hfz : FrozenAlong e b.prop b.txs s) (hinv : KVInv e s) :
+    undoBlock e s' b false ≈ { s with irrev := nextIrrev e.window s.irrev b.height } ∧
+    KVInv e (undoBlock e s' b false) := by
+  have hR := undoBlock_todoBlock e s s' lh b h hwf hnd hfresh hfz hinv
+  constructor
+  · have := hR.obs
+    rw [hpre] at this
+    exact this
+  · exact hR.KVInv (KVInv_of_tables e s _ hinv rfl rfl)
+
+instance (s : St) (t : Tx) : Decidable (citesFrozen s t) := by unfold citesFrozen; exact inferInstance
+
+instance decFrozenAlong (e : Env) (prop : String) : (l : List Nat) → (s : St) → Decidable (FrozenAlong e prop l s)
+  | [], _ => isTrue trivial
+  | i :: rest, s =>
+    have := decFrozenAlong e prop rest (blockStep e prop i s)
+    by unfold FrozenAlong; exact inferInstance
+
+-- non-vacuity: a block with an award, a transfer with a fee that deletes key "a" and creates key "c", and a
+-- transfer that spends an output of the former and overwrites "c"; slide window 2, block height 3
+private def blkEnv : Env := { window := 2, txs := [
+  (1, ⟨1, false, [], [], [⟨"a", none⟩], [⟨"a", "x", false⟩]⟩),
+  (10, ⟨10, true, [], [⟨"miner", 10, 0⟩], [], []⟩),
+  (11, ⟨11, false, [⟨0, 0, "u0", 5, 0, false⟩], [⟨"u1", 3, 0⟩, ⟨"$", 2, 0⟩],
+        [⟨"a", some (1, 0)⟩, ⟨"c", none⟩], [⟨"a", "", true⟩, ⟨"c", "z", false⟩]⟩),
+  (12, ⟨12, false, [⟨11, 0, "u1", 3, 0, false⟩], [⟨"u2", 3, 0⟩], [⟨"c", some (11, 1)⟩], [⟨"c", "w", false⟩]⟩)] }
+private def blkB : Block := ⟨5, some 4, 3, [10, 11, 12], "miner"⟩
+private def blkSt : St := { U := [((0, 0), ⟨"u0", 5, 0⟩)], ZU := [("a", (1, 0))], total := 5, pointer := 4 }
+
+example : (todoBlock blkEnv blkSt 0 blkB).isSome = true ∧ blkB.txs.Nodup ∧
+    FrozenAlong blkEnv blkB.prop blkB.txs blkSt ∧ blkB.pre = some blkSt.pointer := by decide
+example : ∀ i ∈ blkB.txs, TxWF blkEnv i := by
+  intro i hi
+  simp only [blkB, List.mem_cons, List.not_mem_nil, or_false] at hi
+  rcases hi with rfl | rfl | rfl <;> exact ⟨by decide, by decide, by decide⟩
+example : ∀ i ∈ blkB.txs, ∀ o, lookup blkSt.U (i, o) = none := by
+  intro i hi o
+  simp only [blkB, List.mem_cons, List.not_mem_nil, or_false] at hi
+  rcases hi with rfl | rfl | rfl <;> simp [blkSt, lookup]
+example : KVInv blkEnv blkSt := by apply KVInv_of_rows <;> decide
+-- and the conclusion, computed: the block changes rows, keys, total, pointer, irrev; the undo restores all but irrev
+example :
+    let s' := (todoBlock blkEnv blkSt 0 blkB).getD {}
+    (todoBlock blkEnv blkSt 0 blkB).isSome = true ∧
+      s'.pointer = 5 ∧ s'.total = 15 ∧ s'.irrev = 1 ∧ curVer s' "a" = some (11, 0) ∧ curVer s' "c" = some (12, 0) ∧
+      lookup s'.U (11, 1) = some ⟨"miner", 2, 0⟩ ∧
+      (undoBlock blkEnv s' blkB false).U = blkSt.U ∧ (undoBlock blkEnv s' blkB false).total = 5 ∧
+      (undoBlock blkEnv s' blkB false).pointer = 4 ∧ (undoBlock blkEnv s' blkB false).irrev = 1 ∧
+      curVer (undoBlock blkEnv s' blkB false) "a" = some (1, 0) ∧
+      curVer (undoBlock blkEnv s' blkB false) "c" = none := by decide
 
 end XV.C01
